@@ -119,7 +119,11 @@ Theorem C01_reported_responded le t sc k ui :
 Proof. exact (get_reports_responded le t sc k ui). Qed.
 
 (* ---------- Watcher, late path: the dispute is already in the cache when the appointment arrives ---------- *)
+(* user_row_ok: the users the gatekeeper knows have their rows in table users (every reachable state:
+   TowerInv.inv_user_rows).  Without it the repaired store refuses the appointment after the charge
+   (StoredAppointment::UnknownUser) and "refused = state unchanged" would not hold. *)
 Theorem C01_add_triggered sc t signer loc b delay sig d r t' :
+  (forall u, user_row_ok t u) ->
   ti_get (w_cache t) loc = Some d ->
   w_add_appointment sc t signer loc b delay sig = Ok r t' ->
   match r with
@@ -145,6 +149,7 @@ Proof. exact (add_appointment_triggered sc t signer loc b delay sig d r t'). Qed
 
 (* ... and when the cache does not hold the locator: stored exactly as submitted, nothing else *)
 Theorem C01_add_stored sc t signer loc b delay sig r t' :
+  (forall u, user_row_ok t u) ->
   ti_get (w_cache t) loc = None ->
   w_add_appointment sc t signer loc b delay sig = Ok r t' ->
   match r with
